@@ -78,8 +78,8 @@ Qed.
 
 (* ---- the lock redirect as the client sees it ------------------------------------------- *)
 Definition lock_view (h : hst) : option written * list csevent * list csevent :=
-  (Some (mkWritten (resp_of E (ro_fail p_lock_notok)) (h_sev h ++ flash_of E (ro_fail p_lock_notok)) (h_cev h)),
-   h_sev h ++ flash_of E (ro_fail p_lock_notok), h_cev h).
+  (Some (mkWritten (resp_of E (ro_fail (p_lock_notok_of (e_cfg E)))) (h_sev h ++ flash_of E (ro_fail (p_lock_notok_of (e_cfg E)))) (h_cev h)),
+   h_sev h ++ flash_of E (ro_fail (p_lock_notok_of (e_cfg E))), h_cev h).
 
 Lemma view_inv h1 h2 : view h1 = view h2 -> h_out h1 = h_out h2 /\ h_sev h1 = h_sev h2 /\ h_cev h1 = h_cev h2.
 Proof. unfold view. intros H. inversion H. auto. Qed.
@@ -114,8 +114,8 @@ Proof.
   destruct (is_locked E u2) eqn:IL; cbn [negb] in E2.
   - match type of E2 with bind (redirect E _) _ ?hh = _ =>
       assert (Oh : h_out hh = None) by (simpl; exact Ho);
-      destruct (redirect_nofault E nofaults (ro_fail p_lock_notok) hh Oh) as (hx & Ex & Wx);
-      assert (Cx : h_cuser hx = Some u2) by (rewrite (pres_redirect E h_cuser (ro_fail p_lock_notok) _ _ _ Ex); reflexivity)
+      destruct (redirect_nofault E nofaults (ro_fail (p_lock_notok_of (e_cfg E))) hh Oh) as (hx & Ex & Wx);
+      assert (Cx : h_cuser hx = Some u2) by (rewrite (pres_redirect E h_cuser (ro_fail (p_lock_notok_of (e_cfg E))) _ _ _ Ex); reflexivity)
     end.
     unfold bind in E2. rewrite Ex in E2. inversion E2; subst. split; [exact Cx|].
     split; [discriminate|]. intros _. split; [reflexivity|]. rewrite Wx. reflexivity.
@@ -215,7 +215,7 @@ Lemma login_post_unfold h : q_badbody (e_req E) = false ->
          put_session k_uid pid ;;; del_session k_halfauth ;;;
          handled <- fire E EvAfterAuth (beqb (aget k_rm vals) v_true) ;;
          if handled then ret tt else
-         redirect E (ro_follow_redir p_login_ok)) (loaded h)
+         redirect E (ro_follow_redir (p_login_ok_of (e_cfg E)))) (loaded h)
   end.
 Proof.
   intros Bb Api. unfold login_post. unfold bind at 1. rewrite (read_values_ok h Bb Api).
